@@ -28,6 +28,7 @@ FAMILIES = {
     "reshare": ("grow_reshare", "dkg/pedersen/reshare.go RunReshareDKG behind `alpha edit` reshare / add-operators / remove-operators / replace-operator: refusals (node-count / threshold case enumeration), kyber resharing rounds with leaving (none key) and joining (no share) nodes, group key unchanged, new shares at the new cluster's indices, old shares stay valid; real RunReshareDKG over real boards under synctest"),
     "feerecipient": ("grow_feerecipient", "cmd feerecipient sign / fetch / list + app/obolapi fee-recipient client + app/builderregistration.go service (real CLI and real Run loop against a scripted in-process Obol API; fsnotify in real time, timers under synctest): threshold of distinct shares over one message, adoption of the in-progress message, timestamp rules, verified newest-wins merge of file and API overrides, 1 h / 24 h fetch intervals"),
     "sse": ("grow_sse", "app/sse: SSE client framing / reconnect loop (real net/http over net.Pipe in synctest) + listener: head / chain_reorg delivery to subscribers, reorg de-duplication across beacon nodes, delay metrics, gossip-time bookkeeping and trim, malformed events, connection life cycle; 4 findings"),
+    "vapirouter": ("grow_vapirouter", "HTTP layer of the validator API (core/validatorapi/router.go): routing table vs proxy, per-endpoint parsing (json / ssz per fork) and response / error writing, events reverse proxy, context propagation; TLC-enumerated request shapes x one alteration on the real NewRouter over httptest"),
     "retry": ("grow_retry", "app/retry + core/retry.go: backoff, duty-deadline context, error classes, Shutdown accounting, wired edges"),
 }
 
